@@ -220,6 +220,7 @@ def gen_scenario(rng, prof, name):
 
 PROFILES = {
     "core": Profile(),
+    "coreprobe": Profile(leaves={"probe": 10}),
     "seq": Profile(w_comp={"Q": 8, "S": 2, "P": 1}, leaves={"probe": 10}),
     "sel": Profile(w_comp={"Q": 2, "S": 8, "P": 1}, leaves={"probe": 10}),
     "par": Profile(w_comp={"Q": 2, "S": 2, "P": 8}, leaves={"probe": 10}, invalid_policy=0.08),
